@@ -24,16 +24,16 @@ import (
 )
 
 type pruneState struct {
-	ce      appsim.ChainExec
-	ctl     *appsim.CrashCtl
-	sdb     dbm.DB
-	status  cs.NewStatus
-	pruner  *cs.ConsensusState
-	vals    []*types.Validator
-	bump    int64
-	nonce   int
-	txOf    map[uint64]common.Hash
-	setHash map[uint64][]byte // validator-set hash in force from each change height
+	ce               appsim.ChainExec
+	ctl              *appsim.CrashCtl
+	sdb              dbm.DB
+	status           cs.NewStatus
+	pruner           *cs.ConsensusState
+	vals             []*types.Validator
+	bump             int64
+	nonce            int
+	txOf             map[uint64]common.Hash
+	setHash          map[uint64][]byte // validator-set hash in force from each change height
 	crashAt          int
 	lastStatusWrites int
 }
@@ -55,8 +55,9 @@ func (d notFoundDB) Load(k []byte) ([]byte, error) {
 func newPrune(seed int64, trie int, dir string) (*pruneState, string) {
 	p := &pruneState{ctl: &appsim.CrashCtl{}, txOf: map[uint64]common.Hash{}, setHash: map[uint64][]byte{}}
 	p.ce.Wrap = func(name string, db dbm.DB) dbm.DB { return appsim.WrapCrash(name, db, dir, p.ctl) }
-	// blocks are stored in many small parts (a dozen or more per block): part records of different heights must not collide
-	p.ce.PartSize = 61
+	// blocks are stored in many small parts (two dozen per block, measured): part records of different heights must not collide,
+	// whatever the digits of height and part index are
+	p.ce.PartSize = 23
 	if a := p.ce.Exec(fmt.Sprintf("chain trie=%d accts=2 wallets=1 seed=%d", trie, seed)); a != "ok" {
 		return nil, a
 	}
